@@ -143,6 +143,8 @@ pub struct Ctx {
     pub known: Vec<KnownFinding>,
     pub violations: Mutex<Vec<(String, String)>>, // (replay path, reason)
     pub replay_mode: bool,
+    /// in replay mode: the file being replayed (printed in the VIOLATION line instead of a new path)
+    pub replay_file: Option<String>,
     pub rule: Mutex<String>,
     pub assumptions: Mutex<Vec<String>>,
     pub infra_error: Mutex<Option<String>>,
@@ -170,6 +172,7 @@ impl Ctx {
             known,
             violations: Mutex::new(vec![]),
             replay_mode: false,
+            replay_file: None,
             rule: Mutex::new(String::new()),
             assumptions: Mutex::new(vec![]),
             infra_error: Mutex::new(None),
@@ -266,7 +269,10 @@ impl Ctx {
                 eprintln!("cannot write replay {}: {}", path.display(), e);
             }
         }
-        let p = path.display().to_string();
+        let p = match (&self.replay_file, self.replay_mode) {
+            (Some(f), true) => f.clone(),
+            _ => path.display().to_string(),
+        };
         let mut v = self.violations.lock().unwrap();
         if v.is_empty() || self.replay_mode {
             // one VIOLATION line per run is enough (concurrent workers may find the same defect several times)
